@@ -9,6 +9,7 @@ import (
 	"strings"
 	"time"
 
+	"github.com/jhalter/mobius/internal/mobius"
 	"github.com/jhalter/mobius/verifh/explore"
 	"github.com/jhalter/mobius/verifh/ref"
 	"github.com/jhalter/mobius/verifh/vrt"
@@ -350,7 +351,54 @@ func c17Concurrent() (out explore.SchedOutcome) {
 	return out
 }
 
+// banReloadRace: an operator reloads the ban list (SIGHUP / API) while a banned address connects
+// (E-SCHED): the peer must still get nothing but the ban notice.
+func banReloadRace(prop string) func() explore.SchedOutcome {
+	return func() (out explore.SchedOutcome) {
+		vrt.BeginSetup()
+		wd := world.New(world.Cfg{BanYAML: "10.0.0.1: null\n10.0.0.7: 2024-03-05T10:25:00Z\n", Accounts: []world.Acct{
+			{Login: "guest", Name: "Guest"},
+			{Login: "user", Name: "User", Password: "userpw", Access: world.Bits(ref.PReadChat, ref.PAnyName)},
+		}})
+		defer wd.Close()
+		bf, ok := wd.Srv.BanList.(*mobius.BanFile)
+		if !ok {
+			out.Violations = append(out.Violations, explore.SchedV{Signature: prop + "/reload-race/setup", Detail: "ban list is not a BanFile"})
+			return
+		}
+		c1 := wd.Dial("10.0.0.1:1001")
+		c1.Handshake()
+		id1 := c1.Login123("user", "userpw", "u1", 1)
+		c2 := wd.Dial("10.0.0.7:1007")
+		c2.Handshake()
+		id2 := c2.Login123("user", "userpw", "u2", 1)
+		vrt.GoNamed("reload", func() { _ = bf.Load() })
+		vrt.EndSetup()
+		vrt.Settle(5 * time.Second)
+		for i, c := range []*world.Client{c1, c2} {
+			c.Poll()
+			id := []uint32{id1, id2}[i]
+			notices := 0
+			for _, t := range c.Inbox {
+				if t.IsReply == 0 && t.Type == ref.TServerMsg {
+					notices++
+				}
+			}
+			if r := c.Reply(id); r != nil || notices != 1 || len(c.Inbox) != 1 {
+				out.Violations = append(out.Violations, explore.SchedV{Signature: prop + "/reload-race/banned-address-served-during-ban-list-reload",
+					Detail: fmt.Sprintf("connection from banned %s while the ban list was being reloaded received %v", c.Addr, c.Inbox)})
+			}
+		}
+		for _, p := range vrt.S.Panics() {
+			out.Violations = append(out.Violations, explore.SchedV{Signature: prop + "/reload-race/panic/" + vrt.PanicSite(p), Detail: p})
+		}
+		out.Canon = fmt.Sprintf("%d/%d", len(c1.Inbox), len(c2.Inbox))
+		return out
+	}
+}
+
 func runC17(w *explore.Worker) {
+	explore.ExploreSchedules(w, explore.SchedConfig{Harness: "C17reload", Bound: 2, FreeCost: 1, MaxSteps: 20000, Suspend: true}, banReloadRace("C17"))
 	bound := 2
 	if w.Thorough {
 		bound = 3
@@ -366,7 +414,11 @@ func runC17(w *explore.Worker) {
 func replayC17(w *explore.Worker, raw json.RawMessage) {
 	var sr explore.SchedReplay
 	if json.Unmarshal(raw, &sr) == nil && sr.Kind == "schedule" {
-		_, out, err := explore.RunSchedule(sr.Choices, 20000, c17Concurrent)
+		body := c17Concurrent
+		if sr.Harness == "C17reload" {
+			body = banReloadRace("C17")
+		}
+		_, out, err := explore.RunSchedule(sr.Choices, 20000, body)
 		if err != nil {
 			w.Broken("replay: %v", err)
 		}
